@@ -37,6 +37,7 @@ INTK = [
     ('z80', 'db', 8, 'little'), ('z80', 'dw', 16, 'little'), ('z80', 'dd', 32, 'little'),
     ('msp430', 'byte', 8, 'little'), ('msp430', 'word', 16, 'little'),
     ('8051', 'db', 8, 'big'),
+    ('320c25', 'word', 16, 'little'), ('320c25', 'long', 32, 'little'),      # TI WORD / LONG: 16-bit words, a LONG low word first
 ]
 
 
